@@ -193,7 +193,17 @@ def check_C05(tier, replay):
 def check_C09(tier, replay):
     v = Verdict("C09", tier, "model_checking")
     wd = vlib.workdir("C09")
-    groups, jobs, out = honest_runs(tier, wd, v.seed + 9)
+    groups = ej.honest_suite(v.seed + 9, tier)
+    # "... and all random coins": many executions of the smallest configurations with AND gates (a pattern that depends
+    # on a few secret coin bits -- e.g. nothing sent when a short vector is all zero -- shows with probability 2^-5 per
+    # party and run for one AND gate, and practically never for larger circuits)
+    rngc = random.Random(f"c09coins-{v.seed}")
+    for (n, reps) in ((2, 100), (3, 40)) if tier == "quick" else ((2, 400), (3, 150), (4, 40)):
+        circ = ej.and_chain(n, 1, with_not=False)
+        groups.append([ej.job(f"coins1and.n{n}.{k}", circ, ej.rand_inputs(rngc, circ), k % n, [0], cap=1,
+                              pol=ej.policy(rngc, n), tag={"grp": f"coins1and.n{n}.pe{k % n}"}) for k in range(reps)])
+    jobs = [j for g in groups for j in g]
+    out = run_jobs(jobs, wd)
     tr = f"{wd}/ops.ndjson"
     filter_file(out, tr, no_post)
     res = vlib.tlc_trace("Mon_C09", vlib.MON_CFG, tr, wd)
